@@ -454,7 +454,7 @@ void h_as_millis(void) {
 }
 /* as_nanos: exactly 10^9 t + 10^6 ms wherever that fits 64 bits for every value of the milliseconds field (instants up to
  * 2554-07-21T23:33:28Z); together with h_as_millis: as_nanos == 10^6 * as_millis on that range */
-#define T_MAX_NANOS ((UINT64_MAX - 65535u * 1000000u) / 1000000000u)
+#define T_MAX_NANOS ((UINT64_MAX - 65535ull * 1000000ull) / 1000000000ull)
 void h_as_nanos_exact(void) {
     reset_models();
     struct aws_date_time dt = any_dt();
